@@ -15,3 +15,10 @@ pub use observable::ObservableCommitment;
 pub(crate) use periodic::evaluate_periodic_columns_circuit;
 pub use quotient::recompose_quotient_from_chunks_circuit;
 pub use stark::verify_p3_uni_proof_circuit;
+
+/// Public re-exports of private verifier gadgets, for external verification harnesses.
+#[cfg(feature = "verif-hooks")]
+pub mod verif_hooks {
+    pub use super::periodic::verif_evaluate_periodic_columns_circuit as evaluate_periodic_columns_circuit;
+    pub use super::quotient::verif_vanishing_poly_at_point_circuit as vanishing_poly_at_point_circuit;
+}
